@@ -207,7 +207,7 @@ func (P *Program) runInstance(inst *Instance, sol *Solver) *InstanceResult {
 		e := &Exec{
 			prog: P.prog, sol: sol, prefix: prefix, globals: map[*ssa.Global]*Object{}, allow: map[*Object]bool{},
 			unwind: inst.Unwind, cases: inst.Case, harness: inst.Harness, budget: inst.Budget, stats: &res.Stats,
-			tokLitEq: map[string]Bool{}, tokOvfAx: map[int]bool{}, ufs: map[string]bool{}, stubs: stubs, timeoutMs: inst.Timeout, repoPrefix: repoMod,
+			tokLitEq: map[string]Bool{}, tokOvfAx: map[int]bool{}, tokB0: map[int]bool{}, ufs: map[string]bool{}, stubs: stubs, timeoutMs: inst.Timeout, repoPrefix: repoMod,
 			known: map[string]bool{}, concrete: inst.Concrete, relaxed: (inst.Relaxed || inst.Opaque) && inst.Concrete == nil, relaxedUF: inst.RelaxedUF, opaque: inst.Opaque, noSubnormal: inst.NoSubnormal, deadline: t0.Add(time.Duration(inst.MaxSeconds * float64(time.Second))),
 		}
 		for _, k := range inst.Known {
